@@ -109,7 +109,10 @@ func NewSimNet(s *Sim, rules NetRules) *SimNet {
 		rules.HoldMaxNs = int64(1500 * time.Millisecond)
 	}
 
-	return &SimNet{S: s, Rules: rules, conns: map[string]*SimPacketConn{}, lastDue: map[string]time.Duration{}, heldN: map[string][]*heldDatagram{}}
+	n := &SimNet{S: s, Rules: rules, conns: map[string]*SimPacketConn{}, lastDue: map[string]time.Duration{}, heldN: map[string][]*heldDatagram{}}
+	s.nets = append(s.nets, n)
+
+	return n
 }
 
 func Addr(host byte, port int) *net.UDPAddr {
@@ -133,6 +136,18 @@ type SimPacketConn struct {
 	WriteErr func(idx int) error
 	QueueCap int
 	Dropped  int
+	stall    bool // the next WriteTo blocks (transient transport back-pressure) until released, deadline or close
+	wdl      time.Time
+	unstall  bool
+}
+
+// SetStall makes subsequent WriteTo calls block inside the transport.
+func (c *SimPacketConn) SetStall(on bool) {
+	c.mu.Lock()
+	c.stall = on
+	c.unstall = !on
+	c.signalLocked()
+	c.mu.Unlock()
 }
 
 func (n *SimNet) NewConn(name string, local net.Addr) *SimPacketConn {
@@ -205,6 +220,20 @@ func (c *SimPacketConn) ReadFrom(p []byte) (int, net.Addr, error) {
 
 func (c *SimPacketConn) WriteTo(p []byte, addr net.Addr) (int, error) {
 	c.mu.Lock()
+	mine := c.stall // only one write is caught by the stall; later writes pass
+	c.stall = false
+	for mine && !c.unstall && !c.closed && !c.severed {
+		if !c.wdl.IsZero() && !time.Now().Before(c.wdl) {
+			c.mu.Unlock()
+
+			return 0, timeoutError{}
+		}
+		w := c.wake
+		c.mu.Unlock()
+		c.n.S.Probe("write-stalled-in-transport")
+		<-w
+		c.mu.Lock()
+	}
 	if c.closed {
 		c.mu.Unlock()
 
@@ -276,7 +305,14 @@ func (c *SimPacketConn) SetReadDeadline(t time.Time) error {
 	return nil
 }
 
-func (c *SimPacketConn) SetWriteDeadline(time.Time) error { return nil }
+func (c *SimPacketConn) SetWriteDeadline(t time.Time) error {
+	c.mu.Lock()
+	c.wdl = t
+	c.signalLocked()
+	c.mu.Unlock()
+
+	return nil
+}
 
 func (c *SimPacketConn) enqueue(d datagram) bool {
 	c.mu.Lock()
